@@ -1,26 +1,10 @@
-# checks.py — registry of checks: sources, build variants, evidence level, rule text.
-SAN = ['-O1', '-g0', '-fsanitize=address,undefined', '-fsanitize=float-cast-overflow', '-fno-sanitize=alignment', '-fno-sanitize-recover=undefined,float-cast-overflow',
-       '-fno-omit-frame-pointer', '-D_GLIBCXX_ASSERTIONS', '-w']
-FLAVOURS = {
-    'san': dict(cxx='g++', flags=SAN, libs=['-lpugixml']),
-    'fast': dict(cxx='g++', flags=['-O2', '-g0', '-w'], libs=['-lpugixml']),
-}
-P = dict(name='p256', flavour='san', defs=[])                       # production chunk sizes
-S16 = dict(name='c16', flavour='san', defs=['-DBITSERIALIZER_VERIF_CHUNK_SIZE=16', '-DBITSERIALIZER_VERIF_ENCODED_CHUNK_SIZE=32'])
+# checks.py — registry of checks; one fragment per property in checks.d/<id>.py defining CHECK = dict(...)
+import glob, importlib.util, os
+from checks_common import *  # noqa: F401,F403
 
-CHECKS = {
-    'C07': dict(
-        src=['harness/c07_msgpack_read.cpp'], variants=[P], level='exploration',
-        technique='bounded exhaustive enumeration of encodings (all format alternatives, deviation-bounded for composites), truncations and single-byte corruptions, executed on the real readers, judged by a reference decoder',
-        level_text='Every execution runs the real MsgPack string and stream readers. Complete within the stated alphabets and bounds: all encodings of all alphabet values into all compatible '
-                   'targets, all key orders, all truncations and all 255 corruptions per byte position of the corpus. Says nothing about values outside the alphabets or documents outside the corpus.',
-        level_note='Trusted: ref/ref_msgpack.hpp (written from the spec), models/num_model.hpp (typed-load semantics), the explorer engine. Incompatible targets are judged by C04/C05, reader equivalence on arbitrary input by C10.',
-        rule='exhaustive enumeration: (A) every legal MessagePack encoding (reference encoder, all format alternatives) of every named alphabet value x 15 scalar '
-             'target kinds x {root, array element, object member} x 4 policy combinations x {memory, stream reader}; (B) composite corpus x all key orders x nil at any '
-             'node x <=N non-canonical width choices (deviation bound); (C) every truncation and (D) every single-byte corruption of each canonical corpus document. '
-             'Oracle: strict reference decoder on the same bytes + exact typed-load model. distinct_nontrivial = distinct (encoding, target, position) cases / distinct byte strings.',
-        assumptions=['reference decoder/encoder written from the MessagePack specification (ref/ref_msgpack.hpp), cross-checked against pip._vendor.msgpack in setup',
-                     'int<->float<->bool cross-family loads may either deliver the exact value or follow the mismatched-types policy (the statement does not decide)',
-                     'bytes after the first complete object are ignored by loader and reference alike'],
-    ),
-}
+CHECKS = {}
+for _p in sorted(glob.glob(os.path.join(os.path.dirname(os.path.abspath(__file__)), 'checks.d', 'C*.py'))):
+    _spec = importlib.util.spec_from_file_location('chk_' + os.path.basename(_p)[:-3], _p)
+    _m = importlib.util.module_from_spec(_spec)
+    _spec.loader.exec_module(_m)
+    CHECKS[os.path.basename(_p)[:-3]] = _m.CHECK
